@@ -226,7 +226,8 @@ fn denom_ix() -> BoxedStrategy<Den> {
     prop_oneof![20 => any::<u16>().prop_map(Den::Held), 8 => (0u8..3).prop_map(Den::Ix), 2 => Just(Den::Ix(3)), 1 => Just(Den::Ix(4))].boxed()
 }
 fn denom_grant() -> BoxedStrategy<Den> {
-    prop_oneof![3 => any::<u16>().prop_map(Den::Held), 8 => (0u8..3).prop_map(Den::Ix), 1 => Just(Den::Ix(3))].boxed()
+    // (index 4: `UATOM`, another denomination than `uatom`)
+    prop_oneof![6 => any::<u16>().prop_map(Den::Held), 16 => (0u8..3).prop_map(Den::Ix), 2 => Just(Den::Ix(3)), 1 => Just(Den::Ix(4))].boxed()
 }
 fn denom_decrease() -> BoxedStrategy<Den> {
     prop_oneof![8 => any::<u16>().prop_map(Den::Held), 2 => (0u8..3).prop_map(Den::Ix), 1 => Just(Den::Ix(3))].boxed()
@@ -988,7 +989,9 @@ pub fn run_case(prop: &str, case: &Case, ctx: &mut CaseCtx) -> Result<(), Violat
     let mut w = World::new(case.subkeys);
     w.d.chain_admin = case.chain_admin.map(|i| w.senders[i as usize % N_ACTORS].clone());
     if case.peer {
-        w.d.peers.insert(w.senders[3].to_string(), br#"{"can_execute":true}"#.to_vec());
+        // (asked for its admin list it names every actor; to anything else it says yes)
+        let everybody = serde_json::to_vec(&serde_json::json!({"admins": w.senders[..N_ACTORS].iter().map(|a| a.to_string()).collect::<Vec<_>>(), "mutable": true})).unwrap();
+        w.d.peers.insert(w.senders[3].to_string(), vec![("admin_list".to_string(), everybody), (String::new(), br#"{"can_execute":true}"#.to_vec())]);
         ctx.count("obliging_peer_contract");
     }
     let qerr = |e: String| v(prop, "query-failed", format!("a query failed or panicked: {e}"));
@@ -1042,6 +1045,17 @@ pub fn run_case(prop: &str, case: &Case, ctx: &mut CaseCtx) -> Result<(), Violat
                 }
                 let version = ["2.0.0", "1.1.2", "1.0.0", "0.16.0"][*from as usize % 4];
                 w.d.store.data.insert(b"contract_info".to_vec(), format!(r#"{{"contract":"crates.io:cw1-subkeys","version":"{version}"}}"#).into_bytes());
+                // the instance ran that release until now: it holds what that release keeps (the admin list, the
+                // cw2 record, allowances, permissions) and nothing else
+                let known = |k: &[u8]| -> bool {
+                    let pre = |ns: &str| { let mut p = vec![0u8, ns.len() as u8]; p.extend_from_slice(ns.as_bytes()); p };
+                    k == b"admin_list" || k == b"contract_info" || k.starts_with(&pre("allowances")) || k.starts_with(&pre("permissions"))
+                };
+                let before = w.d.store.data.len();
+                w.d.store.data.retain(|k, _| known(k));
+                if w.d.store.data.len() != before {
+                    ctx.count("upgrade_dropped_keys_the_release_does_not_keep");
+                }
                 let r = w.d.tx(|deps, env| cw1_subkeys::contract::migrate(deps, env, Empty {}));
                 let post = w.observe().map_err(qerr)?;
                 ctx.count(if r.is_ok() { "op_Upgrade_ok" } else { "op_Upgrade_fail" });
@@ -1158,7 +1172,8 @@ pub fn run_case(prop: &str, case: &Case, ctx: &mut CaseCtx) -> Result<(), Violat
             return Err(v(prop, "failed-call-changed-state", format!("{at}: harness rollback broken?")));
         }
 
-        if matches!(prop, "C08" | "C17") {
+        // (C07 too: the allowance a subkey's send is judged against is one that admins made)
+        if matches!(prop, "C07" | "C08" | "C17") {
             check_records_only_by_admins(prop, &w, &step, ok, &pre, &post, &at)?;
         }
 
@@ -1220,6 +1235,15 @@ fn check_c07(w: &World, s: &Step, resp: Option<&Response>, pre: &Obs, post: &Obs
         check_grant_expiry(prop, s, resp.is_some(), pre, post, at)?;
     }
     check_update_admins_applied(prop, s, resp.is_some(), post, at)?;
+    // ... and it is an allowance in the denomination the admin named: a successful IncreaseAllowance leaves at
+    // least the granted amount of exactly that denomination visible, and makes no other denomination grow
+    if let (true, true, Call::Increase { coin, .. }, Some(x)) = (w.subkeys, resp.is_some(), &s.call, s.target) {
+        let got = post.allow[x].bal.get(&coin.denom).copied().unwrap_or(0);
+        let grew: Vec<&String> = post.allow[x].bal.iter().filter(|(d, a)| **d != coin.denom && **a > pre.allow[x].bal.get(*d).copied().unwrap_or(0)).map(|(d, _)| d).collect();
+        if (coin.amount.u128() > 0 && got < coin.amount.u128()) || !grew.is_empty() {
+            return Err(v(prop, "grant-not-as-requested", format!("{at}: IncreaseAllowance of {coin} succeeded; the visible allowance went {:?} -> {:?}", pre.allow[x].bal, post.allow[x].bal)));
+        }
+    }
     let Call::Execute(msgs) = &s.call else {
         // nothing but Execute re-dispatches anything
         if let Some(r) = resp {
